@@ -93,7 +93,7 @@ def run(chk):
         "on the live Airplane arrays of every generated pair, including the Reid effective lifting lines",
         "sweep: solve_forces / distributions of (aircraft, state, controls) vs the mirrored triple in all frames"])
     rng = chk.rng
-    n = chk.q(30, 300)
+    n = chk.q(100, 400)
     for it in range(n):
         kind = rng.choice(["general", "general", "symmetric", "fin"])
         sd = gen.gen_scene(rng, chk.hist, rho="const", wind=False)
